@@ -184,8 +184,8 @@ const (
 // only says "totals above the cap". The model rejects when the total of the resulting set exceeds
 // the cap and flags the in-between case as `grey` so that the checker accepts either answer there.
 func refUpdate(in refState, changes []change, cap *big.Int, withWindow bool) (refState, string, stepInfo) {
-	// small fixed tables indexed by address index + 1 (the pool has 6 addresses; -1 = foreign address)
-	const slots = 16
+	// small fixed tables indexed by address index + 1 (the pools have 6 resp. 24 addresses; -1 = foreign address)
+	const slots = 32
 	var info stepInfo
 	var seen, removed, isCur [slots]bool
 	var cur [slots]int
